@@ -43,15 +43,21 @@ type part struct {
 	ThoroughBudgetS int      `json:"thorough_budget_s"`
 	Assumptions     []string `json:"assumptions"`
 	Rule            string   `json:"rule"`
-	ID              string   `json:"-"`
+	// BuildFlags are extra `go test -c` flags (e.g. "-race").
+	BuildFlags []string `json:"build_flags"`
+	// Supplementary parts add evidence but are not the deciding step: they do
+	// not enter the summed counts nor the exhaustive flag.
+	Supplementary bool   `json:"supplementary"`
+	ID            string `json:"-"`
 }
 
 // PartResult is what every part contributes to the evidence file.
 type PartResult struct {
-	Name        string         `json:"name"`
-	Coverage    map[string]any `json:"coverage"`
-	Findings    []evid.Finding `json:"findings"`
-	Assumptions []string       `json:"assumptions"`
+	Name          string         `json:"name"`
+	Coverage      map[string]any `json:"coverage"`
+	Findings      []evid.Finding `json:"findings"`
+	Assumptions   []string       `json:"assumptions"`
+	Supplementary bool           `json:"-"`
 }
 
 const kit = "github.com/dapr/kit/"
@@ -183,6 +189,7 @@ func main() {
 			pr = runEnum(p, root, sub, tier, passthru)
 		}
 		pr.Name = p.Name
+		pr.Supplementary = p.Supplementary
 		parts = append(parts, pr)
 		os.RemoveAll(sub)
 	}
@@ -228,6 +235,11 @@ func finish(s *spec, tier string, parts []*PartResult, wall time.Duration) int {
 	var findings []evid.Finding
 	perPart := map[string]any{}
 	for _, p := range parts {
+		if p.Supplementary {
+			findings = append(findings, p.Findings...)
+			perPart[p.Name+" (supplementary)"] = p.Coverage
+			continue
+		}
 		for _, k := range sumKeys {
 			if v, ok := num(p.Coverage[k]); ok {
 				sums[k] += v
@@ -264,6 +276,12 @@ func finish(s *spec, tier string, parts []*PartResult, wall time.Duration) int {
 	}
 	for k := range present {
 		cov[k] = int64(sums[k])
+	}
+	nmain := 0
+	for _, p := range parts {
+		if !p.Supplementary {
+			nmain++
+		}
 	}
 	if len(parts) == 1 {
 		for k, v := range parts[0].Coverage {
@@ -345,6 +363,7 @@ func altRepoOverlay(alt string) map[string]string {
 func buildHarness(s *part, root, scratch string) string {
 	bin := filepath.Join(scratch, "harness.test")
 	args := []string{"test", "-c", "-vet=off", "-tags", "unit", "-o", bin}
+	args = append(args, s.BuildFlags...)
 	overlay := map[string]string{}
 	repo := repoDir()
 	if repo != "/repo" {
@@ -661,7 +680,8 @@ func runEnum(s *part, root, scratch, tier string, passthru []string) *PartResult
 	cmd := exec.Command(bin, args...)
 	cmd.Dir = filepath.Join(root, s.Harness)
 	cmd.Env = append(env(), "VERIF_SCRATCH="+scratch, "VERIF_ROOT="+root)
-	cmd.Stdout, cmd.Stderr = os.Stdout, os.Stderr
+	var errBuf strings.Builder
+	cmd.Stdout, cmd.Stderr = os.Stdout, &teeW{&errBuf}
 	err := cmd.Run()
 	b, rerr := os.ReadFile(of)
 	var pr PartResult
@@ -670,6 +690,18 @@ func runEnum(s *part, root, scratch, tier string, passthru []string) *PartResult
 	}
 	if rerr != nil {
 		fatal("part %s/%s produced no result (%v; process: %v)", s.ID, s.Name, rerr, err)
+	}
+	if strings.Contains(errBuf.String(), "WARNING: DATA RACE") {
+		// a -race build reported a race on the real runtime
+		msg := errBuf.String()
+		if i := strings.Index(msg, "WARNING: DATA RACE"); i >= 0 {
+			msg = msg[i:]
+		}
+		if len(msg) > 3000 {
+			msg = msg[:3000]
+		}
+		rp := evid.SaveReplay(s.ID, s.Name+"-data-race", map[string]any{"property": s.ID, "part": s.Name, "key": "data-race", "report": msg})
+		pr.Findings = append(pr.Findings, evid.Finding{Key: "data-race", Msg: msg, Replay: rp})
 	}
 	pr.Assumptions = append(pr.Assumptions, s.Assumptions...)
 	return &pr
@@ -686,4 +718,11 @@ func replayEnum(s *part, root, scratch, tier, replay string) int {
 		return 1
 	}
 	return 0
+}
+
+type teeW struct{ sb *strings.Builder }
+
+func (t *teeW) Write(p []byte) (int, error) {
+	t.sb.Write(p)
+	return os.Stderr.Write(p)
 }
